@@ -121,6 +121,22 @@ func RefValidate(cfg map[string]string) []RefViolation {
 			add("must", "/refs/guard", fmt.Sprintf("../../sys/mtu > 1000 is false (mtu=%d)", mtu))
 		}
 	}
+	// dm/strict (default on): must ". = 'off' or ../name"; the default is in effect as soon as dm holds anything
+	dmAny := false
+	for p := range cfg {
+		if strings.HasPrefix(p, "/dm/") {
+			dmAny = true
+		}
+	}
+	if dmAny {
+		strict := "on"
+		if v, ok := cfg["/dm/strict"]; ok {
+			strict = v
+		}
+		if _, named := cfg["/dm/name"]; strict != "off" && !named {
+			add("must", "/dm/strict", ". = 'off' or ../name is false (strict="+strict+", no name)")
+		}
+	}
 	if v, ok := cfg["/refs/ll"]; ok {
 		els := llElems(v)
 		if len(els) < 1 || len(els) > 2 {
